@@ -1338,6 +1338,23 @@ void eval_instruction (const char *p) {
                   lval->u.number += (long)sp->u.real;
                   /* both sides are numbers, no freeing required */
                 }
+              else if (sp->type == T_STRING)
+                {
+                  /* the compiler accepts 'int += string' (grammar.y); same result as lhs = lhs + rhs */
+                  char buff[30];
+                  char *res;
+                  size_t bl;
+
+                  sprintf (buff, "%" PRId64, lval->u.number);
+                  bl = strlen (buff);
+                  res = new_string (bl + SVALUE_STRLEN (sp), "f_add_eq: 3");
+                  strcpy (res, buff);
+                  strcpy (res + bl, sp->u.string);
+                  free_string_svalue (sp);
+                  lval->type = T_STRING;
+                  lval->subtype = STRING_MALLOC;
+                  lval->u.string = res;
+                }
               else
                 {
                   error ("*Left hand side of += is a number (or zero); right side is not a number.");
@@ -1353,6 +1370,22 @@ void eval_instruction (const char *p) {
                 {
                   lval->u.real += sp->u.real;
                   /* both sides are numerics, no freeing required */
+                }
+              else if (sp->type == T_STRING)
+                {
+                  char buff[400]; /* "%lf" of DBL_MAX needs 317 bytes */
+                  char *res;
+                  size_t bl;
+
+                  snprintf (buff, sizeof (buff), "%lf", lval->u.real);
+                  bl = strlen (buff);
+                  res = new_string (bl + SVALUE_STRLEN (sp), "f_add_eq: 4");
+                  strcpy (res, buff);
+                  strcpy (res + bl, sp->u.string);
+                  free_string_svalue (sp);
+                  lval->type = T_STRING;
+                  lval->subtype = STRING_MALLOC;
+                  lval->u.string = res;
                 }
               else
                 {
